@@ -9,7 +9,7 @@ from ..engine import loss_shape, Outcome, Verdict, crash_verdicts, infra_problem
 
 ID = "C08"
 RULE = ("case = data tree (depth <= 6 over fixnums, bignums, ratios, complex, flonums incl. subnormals/boundary powers/+-inf/NaN/-0.0, chars "
-        "and strings mixing 1-4-byte scalars and escapes, symbols needing |..|, booleans, lists, vectors, bytevectors, shared and circular "
+        "and strings mixing 1-4-byte scalars and escapes, symbols needing |..|, booleans, lists, vectors, bytevectors, shared (in car and in tail position, chained) and circular "
         "structure with <= 6 labels) x writer {native C write, (scheme write) write / write-shared (SRFI 38)} x reader {native C read, "
         "(scheme read) (SRFI 38)} x world (sink and source are simulated streams of three kinds with chunk tapes: 1-byte delivery, "
         "boundaries inside tokens / UTF-8 sequences / labels / escapes, would-block with later readiness, EOF at datum end; small-buffer "
